@@ -386,7 +386,7 @@ def gen_history(r, n_blocks, allow_add=True, allow_code=True, rollback=True, reo
 
 # ---------------------------------------------------------------- shrinking
 
-def shrink(fails, ops, max_rounds=200):
+def shrink(fails, ops, max_rounds=70):
     """greedy one-op-at-a-time delta debugging; fails(ops) -> bool re-runs both sides"""
     cur = list(ops)
     rounds = 0
@@ -525,6 +525,8 @@ def classify(pb, group):
         r = d - 900000
         if r == 3:
             return "known", "C10-root-noop-account-write", "root differs with the set of written account records"
+        if r == 4:
+            return "known", "C10-kv-concat-no-length-prefix", "different change sets with the same key/value concatenation share a root"
         if r == 1:
             return "violation", None, "same previous root and same change set but different state roots"
         return "violation", None, "different (previous root, change set) share a state root"
@@ -575,7 +577,10 @@ def decide(ctx, exe, name, groups_ops, mode, known, keys=KEYS, nontrivial=None, 
         elif kind != "ok":
             stats["violation"] += 1
             rep_group = gops
-            if do_shrink and len(gops) == 1:
+            ctx._n_viol = getattr(ctx, "_n_viol", 0) + 1
+            if ctx._n_viol > 6:
+                continue          # enough replays; the run is a violation already
+            if do_shrink and len(gops) == 1 and ctx._n_viol <= 2:
                 def fails(cand):
                     v2, i2, g2 = run_groups(vlib.Ctx(ctx.pid, ctx.tier, ctx.seed), exe, name + "_sh", [[cand]], mode, keys=keys)
                     if not v2:
